@@ -394,31 +394,32 @@ func (c *ctx) pubsubRound(r *vlib.Rand, round int) {
 		time.Sleep(150 * time.Millisecond) // republication published, queued behind the watcher
 		e.R.UncacheCid(x3)
 		got := map[int]int{}
-		for i := 0; i < 3; i++ {
-			a, err := nextAnn(e.R, wait)
-			if err != nil {
-				break
+		origin3 := 0
+		collect := func(d time.Duration) {
+			for {
+				a, err := nextAnn(e.R, d)
+				if err != nil {
+					return
+				}
+				gc, gp, _ := e.annOf(a, cids)
+				got[gc]++
+				if gc == c3 {
+					origin3 = gp
+				}
 			}
-			gc, _, _ := e.annOf(a, cids)
-			got[gc]++
 		}
+		collect(700 * time.Millisecond) // c1, then c2 and c3 in either order, then nothing
 		<-done
-		time.Sleep(300 * time.Millisecond)
-		extra := 0
-		for {
-			a, err := nextAnn(e.R, 0)
-			if err != nil {
-				break
-			}
-			gc, gp, _ := e.annOf(a, cids)
-			extra++
-			if gc == c3 {
-				fail("own-republication-delivered", fmt.Sprintf("R delivered its own republication of cid %d (attributed to peer %d) after the CID was un-cached", gc, gp))
-			}
+		collect(400 * time.Millisecond)
+		extra := got[c3] - 1
+		if got[c3] > 1 {
+			fail("own-republication-delivered", fmt.Sprintf("R delivered cid %d (peer %d) %d times: its own republication was handled as a new announcement after the CID was un-cached", c3, origin3, got[c3]))
 		}
 		c.Eval()
 		c.Count("pubsub:own-republication-with-uncached-cid")
-		if got[c1] != 1 || got[c2] != 1 || got[c3] != 1 {
+		if got[c3] > 1 {
+			// reported above
+		} else if got[c1] != 1 || got[c2] != 1 || got[c3] != 1 {
 			c.Note(fmt.Sprintf("own-republication scenario inconclusive in round %d: deliveries %v extra %d", round, got, extra))
 		} else {
 			c.Nontrivial(fmt.Sprintf("own-republication:%d", round))
